@@ -1,4 +1,6 @@
 # Loaded with `crosshair check --extra_plugin /verif/vlib/ch_plugin.py` (PYTHONPATH=/verif).
 # A plugin file is exec'd inside a function, so the code lives in importable modules.
 import vlib.chfmt
+import vlib.chre
 vlib.chfmt.install()
+vlib.chre.install()
